@@ -477,6 +477,33 @@ impl Check for C17Check {
             if rng.below(3) == 0 {
                 let ops = c17_targeted(&mut rng, c, l);
                 c17_run(cx, c, l, &ops);
+            } else if rng.below(4) == 0 {
+                // "repaint": after a history, cells are drawn again with exactly the text and the
+                // rendition they already have (dirty cleared before each): whatever a draw changes
+                // on the way - the other half of a wide pair, a neighbour - must still be reported
+                let n = 3 + rng.usize(if c * l > 400 { 6 } else { 20 });
+                let mut ops = mixed_history(&mut rng, c, l, n, true);
+                // wide pairs split by an edit are the interesting content
+                ops.push(Op::Feed({ let y = rng.range(1, l); format!("\x1b[{};1H\x1b[44m{}\x1b[41m{}x\x1b[{};2H\x1b[{}P", y, '\u{4e16}', '\u{754c}', y, rng.range(1, 3)) }));
+                let mut probe = Sys::new(c, l, PK::Chars);
+                probe.set_recording(false, false);
+                if crate::sys::run_ops(&mut probe, &ops).is_ok() {
+                    let snap = probe.snap();
+                    if wellformed(&snap).is_empty() {
+                        for _ in 0..6 {
+                            let (y, x) = (rng.below(snap.lines as u64) as usize, rng.below(snap.columns as u64) as usize);
+                            let cell = &snap.grid[y][x];
+                            if cell.text.is_empty() || cell.text == " " && rng.bool() {
+                                continue;
+                            }
+                            ops.push(Op::Api(Call::Sgr(gen::sgr_of(&cell.attr))));
+                            ops.push(Op::Api(Call::CursorPosition(Some(y as u32 + 1), Some(x as u32 + 1))));
+                            ops.push(Op::ClearDirty);
+                            ops.push(Op::Api(Call::Draw(cell.text.clone())));
+                        }
+                        c17_run(cx, c, l, &ops);
+                    }
+                }
             } else {
                 let n = 5 + rng.usize(if c * l > 400 { 12 } else { 40 });
                 let ops = mixed_history(&mut rng, c, l, n, true);
